@@ -67,6 +67,12 @@ var devNull *os.File
 // silence sends the engine's own prints (print/printf, diagnostics) to
 // /dev/null for the duration of a test; use as: defer silence()().
 func silence() func() {
+	return silenceAs("case")
+}
+
+// silenceAs is silence plus naming the running part.
+func silenceAs(part string) func() {
+	currentPart = part
 	if os.Getenv("VERIF_KEEP_STDOUT") != "" {
 		return func() {}
 	}
@@ -228,6 +234,9 @@ func runCase(c *Case) error {
 
 var replayMu sync.Mutex
 
+// currentPart names the running check part (used in replay file names).
+var currentPart = "case"
+
 // writeReplay stores a failing case; the last write wins (minimal case).
 func writeReplay(prop string, payload interface{}) string {
 	replayMu.Lock()
@@ -237,7 +246,7 @@ func writeReplay(prop string, payload interface{}) string {
 		dir = filepath.Join(d, prop)
 	}
 	_ = os.MkdirAll(dir, 0o755)
-	path := filepath.Join(dir, fmt.Sprintf("fail-seed%s-shard%s.json", os.Getenv("VERIF_SEED"), shard()))
+	path := filepath.Join(dir, fmt.Sprintf("fail-%s-seed%s-shard%s.json", currentPart, os.Getenv("VERIF_SEED"), shard()))
 	var buf bytes.Buffer
 	enc := json.NewEncoder(&buf)
 	enc.SetEscapeHTML(false)
@@ -249,7 +258,7 @@ func writeReplay(prop string, payload interface{}) string {
 	b := buf.Bytes()
 	_ = os.WriteFile(path, b, 0o644)
 	if out := os.Getenv("VERIF_OUT"); out != "" {
-		_ = os.WriteFile(filepath.Join(out, fmt.Sprintf("%s.%s.violation", prop, shard())), []byte(path+"\n"), 0o644)
+		_ = os.WriteFile(filepath.Join(out, fmt.Sprintf("%s.%s.%s.violation", prop, currentPart, shard())), []byte(path+"\n"), 0o644)
 	}
 	return path
 }
